@@ -172,9 +172,17 @@ func (c *Class) Evaluation(
 		parentFrame, parentNamespace, parentClass :=
 			base.SeparateNameSpaces(nextT.ToString())
 
-		if slices.Contains(base.BuiltinClasses, parentClass) && parentNamespace == "" {
+		lexicalFrame, isLexical := base.LexicalFrameOf(ctx.GetFrame(), parentClass)
+
+		switch {
+		// class B < A inside module M means M::A when M defines A
+		case parentFrame == "" && parentNamespace == "" && isLexical && lexicalFrame != "":
+			parentFrame = lexicalFrame
+
+		case slices.Contains(base.BuiltinClasses, parentClass) && parentNamespace == "":
 			parentFrame = "Builtin"
-		} else {
+
+		default:
 			parentFrame = base.CalculateFrame(parentFrame, parentNamespace)
 		}
 
